@@ -214,7 +214,20 @@ func (fr *frame) lookupLocal(name string, blk *ssa.BasicBlock, st *State) (Val, 
 		}
 	}
 	// single-definition locals via debug refs
-	if vs := fr.ex.w.localDefs(fr.fn)[name]; len(vs) == 1 {
+	vs := fr.ex.w.localDefs(fr.fn)[name]
+	if len(vs) > 1 {
+		// an address-taken variable has one address definition: prefer it (its current content is loaded)
+		var addrs []localDef
+		for _, d := range vs {
+			if d.addr {
+				addrs = append(addrs, d)
+			}
+		}
+		if len(addrs) == 1 {
+			vs = addrs
+		}
+	}
+	if len(vs) == 1 {
 		d := vs[0]
 		if v, ok := fr.vals[d.val]; ok {
 			if d.addr {
